@@ -203,6 +203,75 @@ def run_case(case):
     return out
 
 
+def run_text_case(c):
+    """parse() of a raw text (+ first evaluate on a 2-sample trace); observations only"""
+    import rtamt
+    out = dict(c)
+    out.update({"outcome": "", "evalOut": "skipped", "implAst": {"op": "none"}, "ret": []})
+    signal.signal(signal.SIGALRM, _alarm)
+    signal.alarm(int(c.get("timeout", 5)))
+    spec = None
+    try:
+        try:
+            if c.get("factory") == "ltl_offline":
+                # the LTL front end: LTL lexer/parser/visitor with the same discrete-time offline interpreter
+                from rtamt.syntax.ast.parser.ltl.specification_parser import LtlAst
+                from rtamt.spec.abstract_specification import AbstractOfflineSpecification
+                from rtamt.semantics.stl.discrete_time.offline.interpreter import StlDiscreteTimeOfflineInterpreter
+                spec = AbstractOfflineSpecification(LtlAst(), StlDiscreteTimeOfflineInterpreter())
+            else:
+                spec = getattr(rtamt, c.get("factory", "StlDiscreteTimeOfflineSpecification"))()
+            for v in c.get("declare", []):
+                spec.declare_var(v, "float")
+            for k, val in c.get("constdecl", []):
+                spec.declare_const(k, "float", val)
+            spec.spec = c["text"]
+            spec.parse()
+            out["outcome"] = "ok"
+            try:
+                out["implAst"] = readback(spec.ast.specs[-1], 1)
+            except Exception as e:
+                out["implAst"] = {"op": "unreadable:" + type(e).__name__}
+        finally:
+            signal.alarm(0)
+    except Timeout:
+        out["outcome"] = "timeout"
+    except BaseException as e:  # noqa
+        out["outcome"] = exc_class(e)
+        out["msg"] = (str(e) or "")[:200]
+    if out["outcome"] == "ok" and c.get("data"):
+        signal.alarm(int(c.get("timeout", 5)))
+        try:
+            try:
+                d = copy.deepcopy(c["data"])
+                if c.get("online"):
+                    n = len(d["time"])
+                    r = []
+                    for i in range(n):
+                        r.append(spec.update(d["time"][i], [[k, d[k][i]] for k in sorted(d) if k != "time"]))
+                    out["ret"] = [enc(x, 1) for x in r]
+                else:
+                    r = spec.evaluate(d)
+                    out["ret"] = [enc(p[1], 1) for p in r]
+                out["evalOut"] = "ok"
+            finally:
+                signal.alarm(0)
+        except Timeout:
+            out["evalOut"] = "timeout"
+        except BaseException as e:  # noqa
+            out["evalOut"] = exc_class(e)
+            out["evalMsg"] = (str(e) or "")[:200]
+    return out
+
+
+def run_text_cases(cases, procs=16):
+    import multiprocessing as mp
+    if len(cases) < 40:
+        return [run_text_case(c) for c in cases]
+    with mp.get_context("fork").Pool(procs) as pool:
+        return pool.map(run_text_case, cases, chunksize=max(1, len(cases) // (procs * 4)))
+
+
 def run_cases(cases, procs=None):
     """run in a process pool; order preserved"""
     procs = procs or min(16, max(1, len(cases) // 20))
